@@ -72,6 +72,7 @@ func main() {
 	}
 	if *explore {
 		rules.ExploreShared(p)
+		rules.ExploreUnexaminedErrors(p)
 		return
 	}
 	if *dumpAnchors {
